@@ -504,7 +504,8 @@ def h_empty_request(ctx, plan, case, rec, rng, nk, hist, route, guarded):
     """EmptyRequest: identity with weight 0 under NoChange; Update(empty) under changed args."""
     from genjax import ChoiceMap, EmptyRequest, Update
 
-    change = rng.random() < 0.5
+    # a function without arguments has no argument that could change: EmptyRequest is the identity
+    change = rng.random() < 0.5 and len(rec.args) > 0
     if not change:
         hist.append("empty_request nochange")
         out = guarded("empty_request", lambda: engine.op_edit(case, rec, nk(), EmptyRequest(), None, "nochange", what="EmptyRequest"))
